@@ -19,7 +19,7 @@ THEOREMS = [
     "QExPy.C02_chol3_none", "QExPy.C02_witness_not_posdef", "QExPy.C02_chol_matrix",
     "QExPy.C02_factor_cases",
     "QExPy.C02_sample_mean_transform", "QExPy.C02_sample_cov_transform",
-    "QExPy.C02_standardised_draws", "QExPy.C02_affine_exact",
+    "QExPy.C02_standardised_draws", "QExPy.C02_draws_carry_correlations3", "QExPy.C02_affine_exact",
     "QExPy.C02_result_def", "QExPy.C02_result_moments", "QExPy.C02_discard", "QExPy.C02_kept_le",
     "QExPy.C02_scaleShift_moments",
 ]
@@ -471,10 +471,10 @@ def chol_unit(ctx, n_cases):
 
 def correspond(ctx):
     sizes = SIZES_QUICK if ctx.quick else SIZES_THOROUGH
-    res = run(ctx, ctx.n(140, 2500), sizes)
+    res = run(ctx, ctx.n(400, 7000), sizes)
     # targeted: the fallback and the structures the quantifier names
-    for kind, n in (("nonpd", ctx.n(12, 150)), ("unit", ctx.n(6, 60)), ("near", ctx.n(8, 100)),
-                    ("zerosigma", ctx.n(8, 100)), ("overflow", ctx.n(8, 100))):
+    for kind, n in (("nonpd", ctx.n(30, 400)), ("unit", ctx.n(12, 150)), ("near", ctx.n(20, 300)),
+                    ("zerosigma", ctx.n(20, 300)), ("overflow", ctx.n(12, 200))):
         r2 = run(ctx, n, sizes, force_kind=kind)
         res["evaluations"] += r2["evaluations"]
         res["nontrivial"] |= r2["nontrivial"]
@@ -482,7 +482,7 @@ def correspond(ctx):
         res["skipped"] += r2["skipped"]
         for k, v in r2["distribution"].items():
             res["distribution"][k] = res["distribution"].get(k, 0) + v
-    n, fs = chol_unit(ctx, ctx.n(200, 5000))
+    n, fs = chol_unit(ctx, ctx.n(500, 20000))
     res["distribution"]["cholesky-unit-cases"] = n
     res["failures"] += fs
     if not ctx.quick:
